@@ -167,6 +167,15 @@ def matcher_ops(seed, tier):
                     ops.append('m strliti %s %s' % (head, hx(l)))
                 for a, z in ranges:
                     ops.append('m range %s %d %d' % (head, ord(a), ord(z)))
+    # case-insensitive matchers, exhaustively over ASCII: every input byte against every (lower-cased, as the generator passes
+    # it) literal character – the neighbours of the letters in the ASCII table ('@' / '`', '[' / '{', …) differ from a letter's
+    # case pair by the same bit
+    for c in range(128):
+        for l in range(128):
+            if 65 <= l <= 90:
+                continue
+            ops.append('m chrliti %s 0 - %d' % (hx(chr(c)), l))
+            ops.append('m strliti %s 0 - %s' % (hx(chr(c) + 'Q'), hx(chr(l) + 'q')))
     return ops
 
 
@@ -330,6 +339,7 @@ def run_fs(hs, workname):
             f.write(version + '\n' + build_time + '\n')
         with open(os.path.join(d, 'histories.txt'), 'w') as f:
             f.write('\n'.join(fs_lines(hs)) + '\n')
+        fmt_checked, fmt_broken = [0], []
         # rustfmt as a table for the model: every (valid grammar, format-mode prefix) output, unformatted -> formatted
         if any(m == 'fmt' for m, _ in hs):
             import zlib
@@ -349,12 +359,18 @@ def run_fs(hs, workname):
                             fh.write(un)
                         subprocess.run(['rustfmt', fp], stdout=subprocess.DEVNULL, stderr=subprocess.DEVNULL, timeout=60)
                         ft.write('%s %s\n' % (fnv64_hex(un), fp))
+                        # the assumption of the format-mode theorems (KeepsHeaderLines): rustfmt leaves the four header lines alone
+                        hl = b'\n'.join(un.split(b'\n')[:4]) + b'\n'
+                        fmt_checked[0] += 1
+                        if not open(fp, 'rb').read().startswith(hl):
+                            fmt_broken.append(pf)
         pi = subprocess.run([PVUNIT, 'fs', d], stdout=subprocess.PIPE, stderr=subprocess.DEVNULL, text=True, timeout=3000)
         pm = subprocess.run([PEGVERIF, 'fs', d], stdout=subprocess.PIPE, stderr=subprocess.PIPE, text=True, timeout=3000)
         if pm.returncode != 0:
             raise RuntimeError('model fs driver failed: ' + pm.stderr[-1000:])
         # expected outputs (ground truth for R_prop): hash of header+prefix+code for the current grammar/prefix
-        return pi.stdout.splitlines(), pm.stdout.splitlines(), dict(version=version, build_time=build_time, outcome=outcome, header_sample=hdr)
+        return pi.stdout.splitlines(), pm.stdout.splitlines(), dict(version=version, build_time=build_time, outcome=outcome, header_sample=hdr,
+                                                                      rustfmt_outputs_checked_for_KeepsHeaderLines=fmt_checked[0], rustfmt_header_lines_changed=fmt_broken)
     finally:
         shutil.rmtree(d, ignore_errors=True)
 
@@ -407,6 +423,10 @@ def run_C18(seed, tier):
                     prev_hash = a[1]
                 k += 1
         res['nontrivial'].add((mode, tuple(o[0] for o in ops)))
+    if info.get('rustfmt_header_lines_changed'):
+        res['strict'].append(dict(kind='fs', what='assumption KeepsHeaderLines of the format-mode theorems does not hold for the installed rustfmt (prefixes %s)' % info['rustfmt_header_lines_changed'][:3],
+                                  history=[], mode='fmt'))
+    res['distribution']['rustfmt outputs whose header lines were checked (KeepsHeaderLines)'] = info.get('rustfmt_outputs_checked_for_KeepsHeaderLines', 0)
     res['samples'] = [dict(mode=hs[j][0], ops=hs[j][1], impl=[im.get(('h%d' % j, str(q))) for q in range(hs[j][1].count('R'))]) for j in (0, 3, len(hs) - 1)]
     res['engine'] = 'fsdiff'
     res['rule'] = ('histories of {edit grammar (4 valid, 5 invalid texts, delete), set prefix (7 prefixes incl. proper prefixes of each other and empty), delete destination, run} '
